@@ -62,8 +62,17 @@ def gen(ctx):
             for width in list(range(w + 1, w + (70 if ctx.tier == 'quick' else 300))):
                 meta.append((sym, level, q, Fraction(1), width, p))
     scan_from = n + 3 * 18
-    for (sym, level, q, s, width, p) in meta[n:]:
+    n2 = len(meta)
+    # no options at all: the documented defaults (module size 1; quiet zone 4 for QR and Micro QR, 2 for rMQR)
+    for sym in ('qr', 'mq', 'rm'):
+        for p in (b'1', b'HELLO', b'hello world 123'):
+            if sym == 'mq':
+                p = p[:5]
+            meta.append((sym, -1, {'qr': 4, 'mq': 4, 'rm': 2}[sym], Fraction(1), 0, p))
+    for (sym, level, q, s, width, p) in meta[n:n2]:
         L.append('render %s %d 1 %d %d %d %d %s' % (sym, level, q, s.numerator, s.denominator, width, p.hex()))
+    for (sym, level, q, s, width, p) in meta[n2:]:
+        L.append('render.default %s %s' % (sym, p.hex()))
     ctx.c12 = {'meta': meta, 'dropped': 0, 'scan_from': scan_from}
     return L
 
@@ -92,7 +101,7 @@ def oracle(ctx, lines, out):
             continue
         head, bmp = o.split(' | ')
         t = head.split()
-        W, H, gray, px = int(t[1]), int(t[2]), t[3] == 'true', bytes.fromhex(t[4])
+        W, H, gray, px = int(t[1]), int(t[2]), t[3] == 'true', bytes.fromhex(t[4]) if len(t) > 4 else b''
         m = refqr.from_image_str(bmp)
         nh, nw = len(m), len(m[0])
         w, h = nw + 2 * q, nh + 2 * q
@@ -157,6 +166,8 @@ def extra(ctx):
 
 def nontrivial(line, out):
     t = line.split()
+    if t[0] == 'render.default':
+        return True
     return int(t[6]) != 1 or int(t[7]) != 0
 
 
